@@ -413,6 +413,57 @@ def _shape(seq, f, chain, follower):
                 f.add("consecutive-blocks")
 
 
+# ------------------------------------------------------------------------------------------ counter prefixes
+# The library numbers clause keywords (@case, @else and @end alike) and blocks with document-wide counters and uses
+# the numbers as ids.  A prefix of closed blocks in front of a small program starts that program from a non-initial
+# state of those counters.  Units (ids consumed / blocks opened), all closed before the program starts:
+#   D  @case true / @case false / x / @else / p / @end(outer)      4 ids, 2 blocks (nested, multi-clause, closes 2)
+#   B  @case false / x / @else / p / @end                           3 ids, 1 block
+#   A  @case true / p / @end                                        2 ids, 1 block
+#   C  @case true / p / q (q at root closes by indentation)         1 id,  1 block
+_UNITS = {
+    "D": (4, [(0, "@case true", "cT", None), (1, "@case false", "cF", None), (2, "x%d int = %d", "n", False),
+              (1, "@else", "el", None), (2, "p%d int = %d", "n", True), (0, "@end", "en", None)]),
+    "B": (3, [(0, "@case false", "cF", None), (1, "x%d int = %d", "n", False), (0, "@else", "el", None),
+              (1, "p%d int = %d", "n", True), (0, "@end", "en", None)]),
+    "A": (2, [(0, "@case true", "cT", None), (1, "p%d int = %d", "n", True), (0, "@end", "en", None)]),
+    "C": (1, [(0, "@case true", "cT", None), (1, "p%d int = %d", "n", True), (0, "q%d int = %d", "n", True)]),
+}
+
+
+@functools.lru_cache(maxsize=None)
+def counter_prefix(k):
+    """A prefix that consumes exactly k clause-keyword ids.
+    Returns (lines [(indent, text)], flat [(kind, indent)], expected {name: value}, effective flat positions)."""
+    units = ["D"] * (k // 4) + {0: [], 1: ["C"], 2: ["A"], 3: ["B"]}[k % 4]
+    lines, flat, data, eff = [], [], {}, set()
+    for u, name in enumerate(units):
+        for ind, text, kind, effective in _UNITS[name][1]:
+            if kind == "n":
+                val = 1000 + len(lines)
+                text = text % (u, val)
+                if effective:
+                    data[text.split()[0]] = val
+                    eff.add(len(lines))
+            lines.append((ind, text))
+            flat.append((kind, ind))
+    assert sum(_UNITS[n][0] for n in units) == k
+    return tuple(lines), tuple(flat), data, frozenset(eff)
+
+
+def prefix_cross_check(k, w):
+    """The indentation automaton reads prefix + program: well-formed, and exactly the expected lines in effect."""
+    plines, pflat, pdata, peff = counter_prefix(k)
+    verdict, info, _ = flat_reference(pflat + tuple(w.flat))
+    if verdict != "ok":
+        return False
+    off = len(pflat)
+    node_pos = {i for i, (kind, _) in enumerate(pflat) if kind == "n"}
+    if {i for i in info if i < off} != set(peff) or not set(peff) <= node_pos:
+        return False
+    return {w.def_lines[i - off] for i in info if i >= off and (i - off) in w.def_lines} == set(w.data)
+
+
 # ------------------------------------------------------------------------------------------ flat sequences (E1)
 FLAT_KINDS = ("n", "cT", "cF", "el", "en")
 FLAT_ALPHABET = tuple((k, i) for i in (0, 1, 2) for k in FLAT_KINDS)
